@@ -2,8 +2,8 @@
    three-decimal rounding: a region is the list of its rounded corners).
    PARTIAL: interning of vertices and edges is proved; "one cell per kept region with the region's corners as cycle" and "all cells in
    one rotational sense" are evaluated by harness/props/c19.py against scipy's diagram. *)
-From Coq Require Import ZArith QArith List Bool.
-From Forsys Require Import Model.Tessellation Proofs.TessProofs.
+From Coq Require Import Reals ZArith QArith List Bool.
+From Forsys Require Import Model.Num Model.Geometry Model.Tessellation Proofs.TessProofs Proofs.GeometryProofs Proofs.OrientationProofs.
 Import ListNotations.
 Open Scope Z_scope.
 
@@ -23,6 +23,17 @@ Theorem C19_lattice_cells_keys : forall st, map fst (lattice_cells st) = map (fu
 Proof. exact lattice_cells_keys. Qed.
 
 (* two unit squares sharing the ridge (1,0)-(1,1): 6 vertices, 7 edges, two cells stored in the same sense *)
+(* all cells are stored in the same rotational sense (over the reals).  add_region evaluates the area sign on the vertex list collected
+   by the loop over the closed region -- every step contributes both of its end points: (c0,c1,c1,c2,...,c_{k-1},c0) -- and create_lattice
+   reverses the cycle when that sign is positive.  The doubled list has the signed area of the region itself, so the stored cycle has
+   signed area -|area|: never positive, for every region *)
+Theorem C19_area_of_doubled_list : forall (c0 : R * R) (t : list (R * R)),
+  area2 ROps (doubled c0 (t ++ [c0])) = area2 ROps (c0 :: t).
+Proof. exact area_doubled. Qed.
+Theorem C19_stored_cycles_share_one_sense : forall (c0 : R * R) (t : list (R * R)),
+  (area2 ROps (stored_cycle c0 t) <= 0)%R /\ area2 ROps (stored_cycle c0 t) = (- Rabs (area2 ROps (c0 :: t)))%R.
+Proof. intros c0 t. split; [apply stored_cycles_share_one_sense|apply stored_cycle_area]. Qed.
+
 Example C19_two_squares :
   let st := lattice_elements [[(0, 0); (1, 0); (1, 1); (0, 1)]; [(1, 0); (2, 0); (2, 1); (1, 1)]]%Q in
   (length (tv st), length (te st), lattice_cells st) = (6%nat, 7%nat, [(1, [1; 2; 3; 4]); (2, [2; 5; 6; 3])]).
@@ -33,3 +44,5 @@ Print Assumptions C19_same_point_same_id.
 Print Assumptions C19_shared_ridge_shared_edge.
 Print Assumptions C19_same_edge_same_id.
 Print Assumptions C19_lattice_cells_keys.
+Print Assumptions C19_area_of_doubled_list.
+Print Assumptions C19_stored_cycles_share_one_sense.
